@@ -436,6 +436,68 @@ def run(tier="quick", replay=None):
             "reader's literal classes no longer mirror the writer's (0x80 -> empty atom: %s, <= 0x7F -> one-byte atom: %s)" % (lit80, lit7f),
             fn=READER)
 
+    # ---------------- R08.h the reader has no classes of its own ------------------------------------------
+    # (a) first-byte values singled out by the reader are the ones the writer emits as such: 0x80 (empty atom) and the pair
+    #     marker 0xFF.  Any other byte >= 0x80 is a length prefix; answering it with a value of its own (e.g. 0xFE -> nil)
+    #     turns input the consensus deserialiser rejects into a value.
+    # (b) any OTHER table of size classes in the module (a function whose ordering comparisons use two or more of the
+    #     writer's class boundaries) must consist of the writer's boundaries only (C_k or C_k - 1): a row that differs
+    #     makes the reader reject or misread lengths the writer produces.
+    def _const_of(f_, o):
+        v = op_int(o)
+        if v is not None:
+            return v
+        l = op_local(o)
+        if l is None:
+            return None
+        ds = [s2 for _, _, s2 in f_.stmts() if s2["pl"]["l"] == l and not s2["pl"]["p"]]
+        if len(ds) == 1 and ds[0]["rv"]["k"] in ("cast", "use") and ds[0]["rv"].get("op"):
+            return op_int(ds[0]["rv"]["op"])
+        return None
+    ser_mod = READER.rsplit("::", 1)[0]
+    writer_paths = {g.path for g in prog.family(WRITER)}
+    nbyte = 0
+    tset = set(thresholds) | {t - 1 for t in thresholds}
+    for f in sorted(prog.fns.values(), key=lambda f: f.path):
+        if not f.path.startswith(ser_mod + "::") or f.path in writer_paths:
+            continue
+        eqs, ords = [], []
+        for bb, i, s2 in f.stmts():
+            rv = s2["rv"]
+            if rv["k"] != "bin" or rv["op"] not in ("Eq", "Ne", "Lt", "Le", "Gt", "Ge"):
+                continue
+            for o, other in ((rv["a"], rv["b"]), (rv["b"], rv["a"])):
+                v = _const_of(f, o)
+                if v is None or op_int(other) is not None:
+                    continue
+                oty = f.local_ty(op_local(other)) if op_local(other) is not None else ""
+                if rv["op"] in ("Eq", "Ne") and v >= 0x80 and oty in ("u8", "u32") and v <= 0xFF:
+                    eqs.append((v, "%s:%s" % (f.file, s2.get("line"))))
+                elif rv["op"] not in ("Eq", "Ne") and v >= 0x40:
+                    ords.append((v, "%s:%s" % (f.file, s2.get("line"))))
+        for bb, b in enumerate(f.blocks):
+            t = b["t"]
+            if t["k"] == "switch" and not b.get("cleanup") and op_local(t["discr"]) is not None and f.local_ty(op_local(t["discr"])) == "u8":
+                for v, _ in t["arms"]:
+                    if isinstance(v, int) and 0x80 <= v <= 0xFF:
+                        eqs.append((v, f.loc(bb)))
+        for v, where in eqs:
+            nbyte += 1
+            R.check(v in (0x80, 0xFF), "R08.h", "R08.h|first-byte-class|%s|0x%02x" % (f.path, v), where,
+                    "auto: the byte value singled out (0x%02x) is one the writer emits as such" % v,
+                    "%s answers the byte 0x%02x with a case of its own: the writer only ever emits 0x80 (empty atom) and 0xFF (pair) as "
+                    "single-byte classes, every other byte >= 0x80 starts a length prefix (0xFE.. are prefixes the consensus deserialiser "
+                    "rejects) - malformed input would become a value" % (f.path, v), fn=f.path)
+        vals = {v for v, _ in ords}
+        if len(vals & tset) >= 2:
+            for v, where in sorted(set(ords)):
+                R.check(v in tset or v in (0x7F, 0x80), "R08.h", "R08.h|class-table|%s|0x%x" % (f.path, v), where,
+                        "auto: boundary 0x%x of this second size-class table is one of the writer's" % v,
+                        "%s holds a table of size classes whose boundary 0x%x is not a boundary of the writer's table (%s): lengths on one "
+                        "side of it are written with one prefix width and expected with another" % (
+                            f.path, v, ", ".join(hex(t) for t in thresholds)), fn=f.path)
+    R.floor("R08.h", "first-byte values singled out by the reader", nbyte, 1)
+
     # ---------------- R08.d byte order of the integer conversion used for sizes ----------------------
     check_byte_order(prog, R)
 
